@@ -413,6 +413,7 @@ func TestC19(t *testing.T) {
 			}
 		}
 	}
+	runLookupSched(t, rep, env)
 	rep.Add(evals, nontrivial, int64(len(states)), transitions+evals)
 	if err := rep.Finish(env); err != nil {
 		t.Fatal(err)
